@@ -32,6 +32,7 @@ FEATURES = [
     'thresholds_huge',     # nothing above threshold
     'half_rate',           # water level sampled every second step
     'misaligned',          # water level on another step (2/3 of the rain step), interpolated by load
+    'fine_offgrid_gap',    # water level at half the rain step with single off-grid readings missing
     'long',
     'epoch_zero',          # the record starts at 1970-01-01 00:00:00 UTC (epoch 0)
     'many_stretches',      # 10-14 gaps: data-interval labels reach two digits
@@ -281,6 +282,19 @@ def gen(rng, force=None, dyadic=None, max_segments=10):
             if len(zs) > 8:
                 i = rng.randint(2, len(zs) - 4)
                 del zs[i:i + rng.randint(1, 3)]
+    if force == 'fine_offgrid_gap' and n >= 6:
+        # water level logged at half the rainfall step; a missing off-grid
+        # reading is a gap of the source record with no grid instant inside:
+        # the two neighbouring grid instants belong to different stretches
+        half = step // 2
+        zs = []
+        for i in range(n - 1):
+            zs.append([i * step, z[i]])
+            zs.append([i * step + half, 0.5 * (z[i] + z[i + 1])])
+        zs.append([(n - 1) * step, z[n - 1]])
+        off = [j for j in range(1, len(zs) - 1) if zs[j][0] % step != 0]
+        for j in sorted(rng.sample(off, min(len(off), rng.randint(1, 4))), reverse=True):
+            del zs[j]
     if force == 'thresholds_tiny':
         sthr = jthr = 1e-12
     elif force == 'thresholds_huge':
